@@ -47,6 +47,11 @@ def build_model(isa, with_mult):
          "port_pressure": [[2, ["C", "D"]]]},
         {"base": b, "index": b, "offset": "*", "scale": "*", "dst": v, "port_pressure": [[1, ["D"]]]},
     ]
+    if isa == "x86":
+        # a row for immediate displacements only, in front of the wildcard row: a symbolic
+        # displacement (sym(%rax)) has the same shape but must fall through to the next row
+        lt.insert(0, {"base": b, "index": None, "offset": "imd", "scale": 1, "dst": g,
+                      "port_pressure": [[3, ["D"]]]})
     st = [
         {"base": b, "index": None, "offset": "*", "scale": 1, "src": g, "port_pressure": [[1, ["D"]]]},
         {"base": b, "index": None, "offset": "*", "scale": 1, "src": v,
@@ -54,8 +59,11 @@ def build_model(isa, with_mult):
     ]
     extra = {}
     if with_mult:
-        extra["load_throughput_multiplier"] = {g: 1.0, v: 2.0, y: 2.0}
-        extra["store_throughput_multiplier"] = {g: 1.0, v: 1.0, y: 2.0}
+        # pairwise different, none equal to 1 where loads and stores of one type meet (a
+        # read-modify-write scales its load part with the load and its store part with the store
+        # multiplier of the register type)
+        extra["load_throughput_multiplier"] = {g: 1.5, v: 2.0, y: 2.5}
+        extra["store_throughput_multiplier"] = {g: 3.0, v: 1.0, y: 2.0}
     model = synth.machine_model(
         isa, PORTS, forms, arch_code="SYN", load_latency={g: 4.0, v: 5.0, y: 6.0},
         load_throughput=lt, load_throughput_default=[[1, ["C", "D"]]],
@@ -93,6 +101,7 @@ def instructions(isa):
             "(%rax,%rbx,8)": dict(base="gpr", index="gpr", offset=None, scale=8),
             "8(%rax,%rbx)": dict(base="gpr", index="gpr", offset="imd", scale=1),
             "8(,%rbx,8)": dict(base=None, index="gpr", offset="imd", scale=8),
+            "sym(%rax)": dict(base="gpr", index=None, offset="id", scale=1),
         }
         for mt, mk in mems.items():
             out.append(dict(text="rf %s, %%xmm1, %%xmm2" % mt, rf="rf", mem=mk, rt="xmm", ld=1, st=0))
